@@ -65,7 +65,9 @@ JOBS = list(JOBS) + [j for j in _il.import_module("units.c01").JOBS if j.name in
 JOBS = list(JOBS) + [j for j in _il.import_module("units.c02").JOBS if j.name in ('c02.yield',)]
 # the final jump away from a finished thread (and the switch into the scheduler it may take): the worker whose queue and
 # scheduler context are used must be the one the thread is running on NOW, also after its destructors (user code) ran
-JOBS = list(JOBS) + [j for j in _il.import_module("units.c12").JOBS if j.name in ('c12.cleanup', 'c12.entry_point_1', 'c12.entry_point_2')]
+JOBS = list(JOBS) + [j for j in _il.import_module("units.c12").JOBS if j.name in ('c12.cleanup', 'c12.entry_point_1', 'c12.entry_point_2',
+    # "the stack of a thread stays its own": a stack is handed back exactly as it was obtained (base, size class), so that no two live threads share stack memory
+    'c12.stack.custom', 'c12.stack.custom.alloc', 'c12.stack.default', 'c12.stack.none', 'c12.flmalloc')]
 JOBS = list(JOBS) + [j for j in _il.import_module("units.c08").JOBS if j.name in ('c08.signal.bounded',)]
 META = {
  "level": "proof",
